@@ -9,6 +9,8 @@ missing times), every set of used keys, every set of existing packs and every op
 Helper lemmas: `Rustic/Lemmas/Prune.lean`.
 -/
 import Rustic.Lemmas.Prune
+import Rustic.Lemmas.PruneExec
+import Rustic.Lemmas.PruneBridge
 import Rustic.Gen.Constants
 namespace Rustic.Props.C02
 open Rustic.Prune
@@ -27,6 +29,24 @@ theorem fromPack_counter_protocol (typed : Bool) (tpe : BlobType) (bs : List Blo
     ((fromPack typed tpe bs c).2.get k = some 0 ∧ k ∈ bs.map (keyOf typed) ∧ 0 < (fromPack typed tpe bs c).1.usedBlobs) ∨
     (occ typed k bs ≤ n ∧ (fromPack typed tpe bs c).2.get k = some (n + 1 - occ typed k bs)) :=
   (fromPack_counts typed tpe bs c).2 k n hk
+
+/-- (1a') **`stats_no_underflow`**: `SizeStats::unused_after_prune` (`unused - remove - repackrm`, evaluated inside the
+loop of `decide_repack` and when the repack pack size is chosen) never underflows: per blob type, what is booked as
+`remove` (packs decided `MarkDelete`) plus what is booked as `repackrm` (packs decided `Repack`) is part of `unused` —
+for *every* list of packs with *any* assignment of decisions, hence at every intermediate moment of planning (packs
+not decided yet count as `Undecided`), for sizes and for blob counts. -/
+theorem stats_no_underflow (ps : List PPack) (t : BlobType) :
+    (sizeStats ps t).remove + (sizeStats ps t).repackrm ≤ (sizeStats ps t).unused ∧
+    (blobStats ps t).remove + (blobStats ps t).repackrm ≤ (blobStats ps t).unused := by
+  constructor
+  · simp only [sizeStats]
+    apply sumBy_add_le
+    intro p
+    cases p.todo <;> simp
+  · simp only [blobStats]
+    apply sumBy_add_le
+    intro p
+    cases p.todo <;> simp
 
 /-- `count_used_blobs` saturates at `u8::MAX`: the counter of a used key is `min 255 (#occurrences)`. -/
 theorem count_saturates (typed : Bool) (keys : List Key) (ps : List PPack) (k : Key) (hk : k ∈ keys) :
@@ -161,20 +181,34 @@ theorem decision_table (typed : Bool) (kc : Consts) (o : Opts) (files : List Ind
           · rw [hc] at h1; simp at h1
         · exact e
 
-/-- Hypothesis of (3): the index file of every pack to repack is among those rebuilt (`filter_index_files` keeps an
-index file with any pack whose decision is not `Keep`); evaluated on every correspondence case. -/
+/-- the index file of every pack to repack is among those rebuilt. -/
 def RepackRebuilt (d : Decided) : Prop := ∀ p ∈ d.packs, p.todo = .repack → d.rebuild.contains p.index = true
+
+/-- **`filter_index_files` keeps what must change**: the index file of every pack whose decision is not `Keep` (and,
+without instant-delete, not `KeepMarked`) is rebuilt — for every accepted plan.  Derived from the model of
+`PrunePlan::new` (a pack's `index` is a position of the index-file list) and of `filter_index_files`. -/
+theorem index_of_changed_pack_rebuilt (typed : Bool) (kc : Consts) (o : Opts) (files : List IndexFile) (used : List Key)
+    (existing : List (Nat × Nat)) (d : Decided) (h : plan typed kc o files used existing = some d) :
+    ∀ p ∈ d.packs, p.todo ≠ .keep → (o.instantDelete = true ∨ p.todo ≠ .keepMarked) →
+      d.rebuild.contains p.index = true :=
+  fun _ hp hk hm => rebuilt_of_not_kept h hp hk hm
+
+/-- … in particular `RepackRebuilt` (formerly a hypothesis of (3), checked by the driver) is a theorem. -/
+theorem repack_rebuilt (typed : Bool) (kc : Consts) (o : Opts) (files : List IndexFile) (used : List Key)
+    (existing : List (Nat × Nat)) (d : Decided) (h : plan typed kc o files used existing = some d) :
+    RepackRebuilt d :=
+  fun _ hp ht => rebuilt_of_not_kept h hp (by rw [ht]; decide) (Or.inr (by rw [ht]; decide))
 
 /-- (3) **Execution covers every used key**: after `prune_repository` every used key is either in a pack that is kept
 (`Keep`) or brought back (`Recover`) — those packs are listed unmarked in the new index and are not removed — or its
 blob is among the blobs copied into new packs (`pack.blobs.retain(used_ids.remove(..))` keeps the first copy in
 execution order among the packs to repack of every key not already covered by a kept pack). -/
 theorem prune_covers_used_keys (typed : Bool) (kc : Consts) (o : Opts) (files : List IndexFile) (used : List Key)
-    (existing : List (Nat × Nat)) (d : Decided) (h : plan typed kc o files used existing = some d)
-    (hr : RepackRebuilt d) :
+    (existing : List (Nat × Nat)) (d : Decided) (h : plan typed kc o files used existing = some d) :
     ∀ k ∈ d.usedKeys,
       (∃ p ∈ d.packs, (p.todo = .keep ∨ p.todo = .recover) ∧ k ∈ p.blobs.map (keyOf typed)) ∨
       (∃ b ∈ (execute typed o d).repacked, keyOf typed b = k) := by
+  have hr : RepackRebuilt d := repack_rebuilt typed kc o files used existing d h
   intro k hk
   obtain ⟨p, hp, hmem, _, ht⟩ := used_key_attributed typed kc o files used existing d h k hk
   rcases ht with ht | ht | ht
@@ -271,10 +305,11 @@ theorem marked_packs_stay (typed : Bool) (kc : Consts) (o : Opts) (files : List 
 not remove it. -/
 theorem recover_brings_back (typed : Bool) (kc : Consts) (o : Opts) (files : List IndexFile) (used : List Key)
     (existing : List (Nat × Nat)) (d : Decided) (h : plan typed kc o files used existing = some d)
-    (p : PPack) (hp : p ∈ d.packs) (hm : p.mark = true) (hu : 0 < p.info.usedBlobs)
-    (hreb : d.rebuild.contains p.index = true) :
+    (p : PPack) (hp : p ∈ d.packs) (hm : p.mark = true) (hu : 0 < p.info.usedBlobs) :
     p.todo = .recover ∧ toIdx p (some o.now) ∈ (execute typed o d).newUnmarked := by
   have ht := (decision_table typed kc o files used existing d h p hp).2.2.2.2.1 hm hu
+  have hreb : d.rebuild.contains p.index = true :=
+    rebuilt_of_not_kept h hp (by rw [ht]; decide) (Or.inr (by rw [ht]; decide))
   refine ⟨ht, ?_⟩
   have hne : ¬ d.rebuild.isEmpty := by
     intro he; rw [List.isEmpty_iff] at he; rw [he] at hreb; simp at hreb
@@ -283,6 +318,63 @@ theorem recover_brings_back (typed : Bool) (kc : Consts) (o : Opts) (files : Lis
   apply List.mem_append_left
   simp only [List.mem_filterMap]
   exact ⟨p, List.mem_filter.mpr ⟨hp, hreb⟩, by rw [ht]⟩
+
+/-- prune writes and removes pack and index files only. -/
+theorem prune_ops_leave_snapshots (o : Opts) (e : Exec) : (e.ops o).all Repo.Op.noSnap = true := by
+  unfold Exec.ops
+  simp only [List.all_append, List.all_map, Bool.and_eq_true]
+  refine ⟨⟨⟨⟨?_, ?_⟩, ?_⟩, ?_⟩, ?_⟩
+  · simp [Repo.Op.noSnap]
+  · split <;> simp [Repo.Op.noSnap]
+  · split
+    · rfl
+    · simp only [List.all_append, List.all_map, Bool.and_eq_true]
+      constructor
+      · simp [Repo.Op.noSnap]
+      · split <;> simp [Repo.Op.noSnap]
+  · split <;> simp [Repo.Op.noSnap]
+  · simp [Repo.Op.noSnap]
+
+/-- (3') **`prune_preserves_readable`** — the bridge from the prune model to the repository protocol of C03
+(`prune_protocol_safe`, in the generality `Repo.prune_run_safe`): let `r` be a consistent repository (index sound, every
+snapshot readable), let the plan be computed from what `prune_plan` reads off `r` (`Reads`: its index files, the keys its
+snapshots need, its pack listing; marked packs truthful; ids of new files fresh) and be accepted.  Then after **every
+prefix** of the storage operations `prune` executes — new packs, the new index file, removal of the rebuilt index files,
+removal of packs; with `instant_delete` also the early removal of unreferenced packs — the repository is consistent and
+every snapshot is still there and completely readable.  Holds for non-instant prune and for instant prune without
+`early_delete_index` (for which C03 `prune_early_delete_index_unsafe` is the counter-example), for all option sets,
+duplicates, marked packs and limits.  A theorem about the prune model — no comparison of operation lists involved. -/
+theorem prune_preserves_readable (kc : Consts) (o : Opts) (r : Repo.Repo) (files : List IndexFile) (used : List Key)
+    (existing : List (Nat × Nat)) (d : Decided)
+    (hr : Reads r files used existing) (hc : Repo.consistent r = true)
+    (h : plan true kc o files used existing = some d)
+    (hearly : (o.earlyDeleteIndex && o.instantDelete) = false) :
+    ∀ r' ∈ Repo.prefixStates r ((execute true o d).ops o),
+      Repo.consistent r' = true ∧ r'.snaps = r.snaps ∧ ∀ s ∈ r.snaps, Repo.readable r' s = true := by
+  intro r' hr'
+  have hcons := execute_prefix_consistent kc o r files used existing d hr hc h hearly
+    (prune_covers_used_keys true kc o files used existing d h)
+    (needed_packs_exist true kc o files used existing d h) r' hr'
+  have hsn := Repo.snaps_prefixStates _ r (prune_ops_leave_snapshots o _) r' hr'
+  refine ⟨hcons, hsn, fun s hs => ?_⟩
+  exact ((Repo.consistent_iff r').mp hcons).2 s (by rw [hsn]; exact hs)
+
+/-- … in particular the final state: after the whole run every snapshot is readable. -/
+theorem prune_result_readable (kc : Consts) (o : Opts) (r : Repo.Repo) (files : List IndexFile) (used : List Key)
+    (existing : List (Nat × Nat)) (d : Decided)
+    (hr : Reads r files used existing) (hc : Repo.consistent r = true)
+    (h : plan true kc o files used existing = some d)
+    (hearly : (o.earlyDeleteIndex && o.instantDelete) = false) :
+    ∀ s ∈ r.snaps, Repo.readable (Repo.applyAll r ((execute true o d).ops o)) s = true := by
+  have hlast : ∀ (ops : List Repo.Op) (r0 : Repo.Repo), Repo.applyAll r0 ops ∈ Repo.prefixStates r0 ops := by
+    intro ops
+    induction ops with
+    | nil => intro r0; simp [Repo.applyAll, Repo.prefixStates]
+    | cons op ops ih =>
+      intro r0
+      simp only [Repo.applyAll, List.foldl_cons, Repo.prefixStates, List.mem_cons]
+      exact Or.inr (ih (Repo.apply r0 op))
+  exact (prune_preserves_readable kc o r files used existing d hr hc h hearly _ (hlast _ r)).2.2
 
 /-! ### Witnesses (non-vacuity, and the defect fixed by `fix: prune keys used_ids by (blob type, id)`) -/
 
@@ -318,5 +410,34 @@ example :
            { id := 3, time := some 999999, size := some 97, blobs := [{ tpe := .data, id := 3, offset := 0, length := 20, compressed := true }] }] }]
       [(.data, 1)] [(1, 97), (2, 97), (3, 97)]).map (fun d => d.packs.map (·.todo))
     = some [.recover, .delete, .keepMarked] := by decide +kernel
+
+/-! non-vacuity of `prune_preserves_readable`: a concrete consistent repository — a partly used pack (repacked), an
+unused pack (marked), a fresh marked pack (kept marked), an expired marked pack (deleted) — satisfies all hypotheses,
+and the monitor of C03 confirms the conclusion on it. -/
+def vBlob (id : Nat) : Blob := { tpe := .data, id := id, offset := 0, length := 20, compressed := true }
+def vFiles : List IndexFile :=
+  [{ id := 1,
+     packs := [{ id := 1, time := some 900000, size := some 100, blobs := [vBlob 1, { vBlob 2 with offset := 20 }] },
+               { id := 2, time := some 900000, size := some 100, blobs := [vBlob 3] }],
+     del := [{ id := 3, time := some 999999, size := some 100, blobs := [vBlob 4] },
+             { id := 4, time := some 900000, size := some 100, blobs := [vBlob 5] }] }]
+def vRepo : Repo.Repo :=
+  { packs := [{ id := 1, blobs := [(.data, 1), (.data, 2)] }, { id := 2, blobs := [(.data, 3)] },
+              { id := 3, blobs := [(.data, 4)] }, { id := 4, blobs := [(.data, 5)] }],
+    indexes := vFiles.map toRepoIndex,
+    snaps := [{ id := 1, needs := [(.data, 1)] }] }
+def vOpts : Opts := { wOpts with maxRepack := .unlimited, maxUnused := .size 0 }
+def vExisting : List (Nat × Nat) := [(1, 100), (2, 100), (3, 100), (4, 100)]
+
+theorem vReads : Reads vRepo vFiles [(.data, 1)] vExisting :=
+  { indexes := rfl, indexIds := by decide, used := by decide, existing := by decide, markedTruthful := by decide,
+    freshIndex := by decide, freshPacks := fun t => by cases t <;> decide }
+
+example : Repo.consistent vRepo = true ∧
+    (plan true wConsts vOpts vFiles [(.data, 1)] vExisting).map (fun d => d.packs.map (·.todo))
+      = some [.repack, .markDelete, .keepMarked, .delete] ∧
+    (plan true wConsts vOpts vFiles [(.data, 1)] vExisting).map
+      (fun d => Repo.firstBad vRepo ((execute true vOpts d).ops vOpts)) = some none := by
+  refine ⟨by decide, by decide +kernel, by decide +kernel⟩
 
 end Rustic.Props.C02
